@@ -108,6 +108,35 @@ def direct(eng, objs, ds, k, t=None):
     return bad
 
 
+def trace_stage(eng, objs, k):
+    """the bound inside a recorded trace: the values as the successive yields of one generator call (`CallTrace.add_yield_type`),
+    plain and wrapped in lists, then through `build_module_stubs_from_traces`"""
+    from monkeytype.stubs import build_module_stubs_from_traces
+    from monkeytype.tracing import CallTrace
+    from .. import fixture_funcs
+    bad = []
+    for wrap in (False, True):
+        tr = CallTrace(fixture_funcs.module_func, {})
+        for o in objs:
+            tr.add_yield_type(eng.get_type([o] if wrap else o, k))
+        if tr.yield_type is None:
+            continue
+        nodes = []
+        td_nodes(tr.yield_type, nodes)
+        for r, o in nodes:
+            if r + o > k or r + o == 0:
+                bad.append("trace-size: yield type of one call has a TypedDict with %d keys at limit %d: %r" % (r + o, k, tr.yield_type))
+        try:
+            stubs = build_module_stubs_from_traces([tr], k)
+            for ms in stubs.values():
+                for n, v in stub_class_sizes(ms.typed_dict_class_stubs):
+                    if v > k or v == 0:
+                        bad.append("trace-stub-size: class %s has %d keys at limit %d (yields%s)" % (n, v, k, " in lists" if wrap else ""))
+        except Exception as e:
+            bad.append("trace-stub: %r" % (e,))
+    return bad
+
+
 def run(pid, tier, seed):
     chk = framework.Check(pid, tier, seed)
     chk.rule = RULE
@@ -148,6 +177,9 @@ def run(pid, tier, seed):
                 continue
             for b in direct(eng, objs, ds, k, t):
                 chk.fail(b.split(":")[0], dict(ic.case_json(k, ds), detail=b))
+            if nt and len(objs) >= 2:
+                for b in trace_stage(eng, objs, k):
+                    chk.fail(b.split(":")[0], dict(ic.case_json(k, ds), detail=b))
             nodes = []
             td_nodes(t, nodes)
             chk.count("k%d.td_nodes.%d" % (k, min(len(nodes), 3)))
